@@ -10,7 +10,7 @@ from ..lang import UserErr, exc_desc
 ID = "C18"
 LEVEL = "exploration"
 RULE = (
-    "(a) chains of d = 1..12 (thorough ..60) awaiting tasks with generated, individually named bodies; the deepest "
+    "(a) chains of d = 1..12 (thorough ..60) awaiting tasks with generated, individually named bodies (any subset of levels defined without retrievable source, as code typed into a REPL or built with exec); the deepest "
     "level raises directly or in a plain helper; any subset of levels first awaits a batch item and any subset "
     "catches and re-raises; run via fn() and fn.asynq().value() on both builds: the user frames of the escaping "
     "exception's traceback must be exactly lvl0..lvl(d-1) once each, in order, ending at the raising frame, and "
@@ -105,10 +105,12 @@ def make_chain(d, cfg, rt, stack_out):
     from .. import harness
 
     ns = {"A": A, "cfg": cfg, "harness": harness, "rt": rt, "UserErr": UserErr, "ctr": itertools.count(), "stack_out": stack_out, "adebug": adebug}
-    src = ["def raiser():\n    raise UserErr('boom')\n"]
+    pieces = [(None, "def raiser():\n    raise UserErr('boom')\n")]
     for i in range(d):
-        src.append(
-            '''
+        pieces.append(
+            (
+                i,
+                '''
 @A()
 def lvl%(i)d():
     if cfg["item"][%(i)d]:
@@ -127,12 +129,17 @@ def lvl%(i)d():
         v = yield lvl%(n)d.asynq()
     return v
 '''
-            % {"i": i, "n": i + 1, "last": d - 1}
+                % {"i": i, "n": i + 1, "last": d - 1},
+            )
         )
-    text = "\n".join(src)
-    fname = "<c18-chain-%d>" % next(_chain_ctr)
-    linecache.cache[fname] = (len(text), None, text.splitlines(True), fname)
-    exec(compile(text, fname, "exec"), ns)
+    nosource = cfg.get("nosource") or [False] * d
+    for i, text in pieces:
+        fname = "<c18-chain-%d>" % next(_chain_ctr)
+        if i is None or not nosource[i]:
+            # make the source retrievable (inspect / linecache), as for a function defined in a module
+            linecache.cache[fname] = (len(text), None, text.splitlines(True), fname)
+        # else: like code typed into a REPL or built with exec(): no source available
+        exec(compile(text, fname, "exec"), ns)
     return ns
 
 
@@ -153,17 +160,20 @@ def run_chain_unit(unit, res, c, progress):
         progress(unit["cases"][0])
         rnd = random.Random(tl.case_seed(unit["seed"], ID, "chain%d" % d))
         variants = []
-        variants.append(([False] * d, [False] * d, False))
-        variants.append(([True] * d, [True] * d, True))
-        variants.append(([i % 2 == 0 for i in range(d)], [i % 3 == 0 for i in range(d)], False))
+        variants.append(([False] * d, [False] * d, False, [False] * d))
+        variants.append(([True] * d, [True] * d, True, [False] * d))
+        variants.append(([i % 2 == 0 for i in range(d)], [i % 3 == 0 for i in range(d)], False, [i % 2 == 1 for i in range(d)]))
+        variants.append(([False] * d, [False] * d, False, [True] * d))
         while len(variants) < unit["variants"]:
-            variants.append(([rnd.random() < 0.5 for _ in range(d)], [rnd.random() < 0.4 for _ in range(d)], rnd.random() < 0.5))
-        for vi, (catch, item, helper) in enumerate(variants):
+            variants.append(([rnd.random() < 0.5 for _ in range(d)], [rnd.random() < 0.4 for _ in range(d)], rnd.random() < 0.5, [rnd.random() < 0.3 for _ in range(d)]))
+        for vi, (catch, item, helper, nosource) in enumerate(variants):
             for how in ("call", "value"):
                 asynq.scheduler.reset()
                 rt = harness.HarnessRT({"nodes": [], "kinds": 1})
                 stack_out = []
-                ns = make_chain(d, {"catch": catch, "item": item, "helper": helper}, rt, stack_out)
+                ns = make_chain(d, {"catch": catch, "item": item, "helper": helper, "nosource": nosource}, rt, stack_out)
+                if any(nosource) and not all(nosource):
+                    c["chains_with_some_levels_without_source"] = c.get("chains_with_some_levels_without_source", 0) + 1
                 err = None
                 try:
                     if how == "call":
@@ -213,7 +223,7 @@ def run_chain_unit(unit, res, c, progress):
                             {
                                 "oracle": v[0],
                                 "mechanism": v[0],
-                                "detail": {"depth": d, "catch_and_reraise": catch, "await_item": item, "raise_in_helper": helper, "how": how, "violation": v[1]},
+                                "detail": {"depth": d, "catch_and_reraise": catch, "await_item": item, "raise_in_helper": helper, "levels_without_source": nosource, "how": how, "violation": v[1]},
                                 "case": dict(unit, depths=[d]),
                             }
                         )
@@ -672,7 +682,7 @@ def run_unit(unit, progress):
 
 def reach(c, tier):
     out = []
-    for k in ("chains", "chains_with_reraise", "chains_with_batch_awaits", "filter_inputs", "filter_complete_runs", "filter_partial_runs", "filter_inputs_ending_inside_a_run", "format_error_calls", "object_states_printed", "fixed_object_states_printed"):
+    for k in ("chains", "chains_with_reraise", "chains_with_batch_awaits", "chains_with_some_levels_without_source", "filter_inputs", "filter_complete_runs", "filter_partial_runs", "filter_inputs_ending_inside_a_run", "format_error_calls", "object_states_printed", "fixed_object_states_printed"):
         if not c.get(k):
             out.append("%s is zero" % k)
     return out
